@@ -618,6 +618,9 @@ impl BuildJob<'_> {
                 .refresh(ptx)
                 .and_then(|_| {
                     sf.is_generated = true;
+                    // Whatever the user may have put there earlier, what we are about
+                    // to install is our own output.
+                    sf.is_override = false;
                     sf.stamp = None;
                     sf.save(ptx)
                 })
